@@ -96,6 +96,7 @@ func AppendSnapshot(b []byte, s *slip.Scope) []byte {
 	b = appendSnapshotPackages(b, s)
 	b = appendSnapshotConstants(b, s)
 	b = appendSnapshotFlavors(b, s)
+	b = appendSnapshotClasses(b, s)
 	b = appendSnapshotVars(b, s)
 	b = appendSnapshotFunctions(b, s)
 
@@ -248,6 +249,50 @@ func appendSnapshotFlavors(b []byte, s *slip.Scope) []byte {
 	}
 	for _, f := range fa {
 		write(f)
+	}
+	return b
+}
+
+func appendSnapshotClasses(b []byte, s *slip.Scope) []byte {
+	// The classes defined with defclass and define-condition. Flavors have
+	// been written already.
+	var ca []slip.Class
+	for _, p := range slip.AllPackages() {
+		if isCorePackage(p) {
+			continue
+		}
+		p.EachClass(func(c slip.Class) {
+			// The built in classes are final, those defined with defclass
+			// and define-condition are not.
+			if fc, ok := c.(interface{ IsFinal() bool }); ok && !fc.IsFinal() && c.Pkg() == p {
+				ca = append(ca, c)
+			}
+		})
+	}
+	// By name except that the classes a class inherits from are written
+	// before it.
+	sort.Slice(ca, func(i, j int) bool {
+		return ca[i].Name() < ca[j].Name()
+	})
+	written := map[slip.Class]bool{}
+	var write func(c slip.Class)
+	write = func(c slip.Class) {
+		if written[c] {
+			return
+		}
+		written[c] = true
+		for _, c2 := range ca {
+			if c.Inherits(c2) {
+				write(c2)
+			}
+		}
+		if form := c.LoadForm(); form != nil {
+			b = append(b, '\n')
+			b = pp.Append(b, s, form)
+		}
+	}
+	for _, c := range ca {
+		write(c)
 	}
 	return b
 }
